@@ -197,9 +197,18 @@ def build_world(spec):
         layout = f.get("layout") or {}
         text = "\n".join(r["input"] if r["input"].endswith("\n") or not r["input"] else r["input"] + "\n" for r in recs)
         final = apply_layout(text, layout)
+        raw_bytes = None
+        if layout.get("cookie"):
+            # PEP 263 source: declared non-UTF-8 encoding plus one character whose bytes differ between the two encodings
+            ctext = "# -*- coding: %s -*-\n" % layout["cookie"] + final + ("" if final.endswith("\n") or not final else "\n") + 's_cookie = "Jos\u00e9 \u00fcber"\n'
+            try:
+                raw_bytes = ctext.encode(layout["cookie"])
+                final = ctext
+            except (UnicodeEncodeError, LookupError):
+                raw_bytes = None
         probe = final.lstrip("\ufeff").replace("\r\n", "\n").replace("\r", "\n")
         ok = parses(probe)
-        files[path] = enc(final.encode("utf-8"))
+        files[path] = enc(raw_bytes if raw_bytes is not None else final.encode("utf-8"))
         meta["files"][path] = {"kind": "py", "snippets": list(f["snippets"]), "codemods": [r["codemod"] for r in recs],
                                "parses": ok, "layout": layout}
         if not ok:
